@@ -309,8 +309,15 @@ fn point(ctx: &Ctx, c: &Case, obs: &mut Obs) -> PropResult {
         ensure!(d <= 2e-3 * mag, "{} of {:?} = {:?}; the published definition gives {:?} (distance {:e} in the target embedding, allowed 2e-3)", label, x, got, want.alts[0], d);
         return Ok(());
     }
-    obs.err(label, d / mag);
     let t = tol(want.tier) * mag;
+    if !(d <= t) && want.tier == Tier::Hsluv {
+        // the HSLuv reference returns (h, 0, 100) / (100, 0, h) for L > 99.9999999; palette has only the lower guard
+        let l = if a.k == K::Lchuv { x[0] } else { x[2] };
+        if l > 99.9999999 {
+            pv::fail_keyed!("C02:hsluv-upper-guard-missing", "{} of {:?} = {:?}; the HSLuv reference guards L > 99.9999999 and gives {:?}", label, x, got, want.alts[0]);
+        }
+    }
+    obs.err(label, d / mag);
     ensure!(d <= t, "{} of {:?} = {:?}; the published definition gives {:?} (distance {:e} in the target embedding, allowed {:e})", label, x, got, want.alts[0], d, t);
     Ok(())
 }
@@ -427,7 +434,7 @@ fn main() {
     let ctx = Ctx { convs, direct };
     h.extra("direct_conversions", serde_json::json!(ctx.direct.iter().map(|&i| format!("{} -> {}", SPACE_NAMES[ctx.convs[i].a], SPACE_NAMES[ctx.convs[i].b])).collect::<Vec<_>>()));
     let nd = ctx.direct.len();
-    let per = h.n(4_000, 120_000);
+    let per = h.n(30_000, 400_000);
     let ctxr = &ctx;
     h.prop(
         "direct_conversions_vs_definitions",
